@@ -143,6 +143,10 @@ func genStmts(r *Rand, apps []gApp, depth int, n int) []gStmt {
 			}
 			out = append(out, s)
 			lastIf = false
+		case k == 9 && r.Bool():
+			// a return anywhere in a statement list: what follows it is still part of the endpoint
+			out = append(out, gStmt{Kind: "ret", Text: Pick(r, []string{"ok <: string", "error", "ok <: Order"})})
+			lastIf = false
 		default:
 			out = append(out, gStmt{Kind: "action", Text: "note"})
 			lastIf = false
